@@ -99,7 +99,7 @@ def replay_file(rec_list):
     return [r.brief() for r in rec_list]
 
 
-def run_histories(ctx, res, n_hist, max_steps, store_kinds=("memory",), nfun=None, allow=("call", "ref", "keep", "datafn"),
+def run_histories(ctx, res, n_hist, max_steps, store_kinds=("memory",), nfun=None, allow=("call", "ref", "keep", "datafn", "shadow"),
                   on_record=None, world_filter=None, extra_steps=None, edit_kinds=None, at_step=None, entry_kind=None):
     """runs `n_hist` histories; calls on_record(rec, session) after every evaluation step; returns all records"""
     rng = ctx["rng"]
